@@ -89,7 +89,7 @@ def fr(v):
 
 def main(run):
     from ixai.utils.tracker import WelfordTracker, ExponentialSmoothingTracker
-    run.rule = ("streams of exact rationals (11 value patterns (incl. values equal to the running mean) x lengths 0..256, thorough to 4096) pushed through the shipped "
+    run.rule = ("streams of exact rationals (11 value patterns (incl. values equal to the running mean) x lengths 0..300, thorough to 4096; plus streams of ~10^4 (thorough ~10^5) updates on ONE tracker object checked at every 2^k-1,2^k,2^k+1 and 1000s) pushed through the shipped "
                 "WelfordTracker / ExponentialSmoothingTracker update code; after every update mean, population variance, N and "
                 "sum alpha(1-alpha)^(n-i)v_i compared with == against closed forms, std against sqrt; linearity, min<=mean<=max "
                 "and convex-hull clauses asserted on the exact runs; float / NumPy-scalar streams compared with the exact result "
@@ -198,6 +198,58 @@ def main(run):
                         break
                 if len(set(fv)) >= 3:
                     run.nontriv(("c10", kind, n, rep, run.shard[0], repr(alpha)))
+    # ---- LONG streams on ONE tracker object (counter thresholds anywhere: 2^12, 2^15, 2^16, 10^4, ...): exact Welford
+    # statistics from running sums, smoothing against the closed form truncated where (1-alpha)^M < 2^-80
+    long_n = (9000 + rnd.randrange(3000)) if not thorough else (70000 + rnd.randrange(70000))
+    for rep in range(2 if not thorough else 1):
+        w, wf = WelfordTracker(), WelfordTracker()
+        ea = rnd.choice([0.05, 0.25, 0.5])
+        e = ExponentialSmoothingTracker(ea)
+        upd_w, upd_wf, upd_e = (w.update, wf.update, e.update) if rep == 0 else (None, None, None)   # hoisted bound methods
+        s1 = s2 = 0
+        fvals = []
+        checks = set()
+        for kk in range(1, 18):
+            checks.update((2 ** kk - 1, 2 ** kk, 2 ** kk + 1))
+        checks.update(range(1000, long_n, 1000))
+        checks.update(c + 1 for c in range(1000, long_n, 1000))
+        checks.add(long_n)
+        trend = rnd.choice([0, 1])
+        for m in range(1, long_n + 1):
+            iv = rnd.randrange(-4000, 4000) + trend * m          # integer-valued rationals: exact sums stay cheap
+            fv_ = iv / 8.0
+            if upd_w:
+                upd_w(Q(iv)); upd_wf(fv_); upd_e(fv_)
+            else:
+                w.update(Q(iv)); wf.update(fv_); e.update(fv_)
+            s1 += iv
+            s2 += iv * iv
+            fvals.append(fv_)
+            if m in checks or rnd.random() < 0.002:
+                mean, var = Fraction(s1, m), Fraction(s2, m) - Fraction(s1, m) ** 2
+                probs = []
+                if not (fr(w.mean) == mean and fr(w.get()) == mean):
+                    probs.append(("welford-mean", f"mean {w.mean!r} != {mean}"))
+                if not (fr(w.var) == var):
+                    probs.append(("welford-variance", f"var {w.var!r} != population variance {var}"))
+                if w.N != m or e.N != m or wf.N != m:
+                    probs.append(("update-count", f"N={w.N}/{wf.N}/{e.N} after {m} updates"))
+                fmean, fvar = float(mean) / 8.0, float(var) / 64.0
+                scale = 500.0 + trend * m / 8.0
+                if not (abs(float(wf.mean) - fmean) <= 1e-9 * scale and abs(float(wf.var) - fvar) <= 1e-9 * max(1.0, fvar)):
+                    probs.append(("welford-float-long", f"float mean/var {wf.mean!r}/{wf.var!r} vs exact {fmean!r}/{fvar!r}"))
+                M = min(m, int(80 * math.log(2) / -math.log(1 - ea)) + 2)
+                es = math.fsum(ea * (1 - ea) ** j * fvals[m - 1 - j] for j in range(M))
+                if not (abs(float(e.get()) - es) <= 1e-9 * scale):
+                    probs.append(("smoothing-closed-form", f"smoothed {e.get()!r} != {es!r} (alpha={ea})"))
+                run.ok(6, kind="long-stream")
+                for mech, msg in probs:
+                    run.violation(mech, f"long stream (one tracker object, trend={trend}) after update {m}: {msg}",
+                                  {"pattern": "long-stream", "length": m, "alpha": ea, "trend": trend})
+                if probs:
+                    break
+        run.count("long-stream-updates", long_n)
+        run.nontriv(("c10-long", rep, run.shard[0]))
     # ---- float / NumPy scalar inputs against the exact result
     def mk(typ, rnd_):
         if typ in ("uint8",):
